@@ -4,17 +4,22 @@
    ref_client/grpc_client : models of what referenceclient/impl.go and grpcclient/impl.go report
    assert_errs            : C03's model of results.go assert (nil outcome iff the list is empty)
    transport_ok           : the explicit hypotheses on connect-go / grpc-go / net/http (C02_Spec) - assumed, sampled on
-                            every check run, NOT proved. *)
+                            every check run, NOT proved.
+   A permutation of a test case is (tc, codec, comp): the expectation is the one derived FOR THAT codec (for a
+   Connect GET case it names the codec in the echoed query params), the run is the one under the same codec. *)
 From V Require Import C02_Spec C02_Proofs.
 
 (* For every well-formed test case of the deterministic fragment - any stream type, any number of requests, responses,
-   headers, trailers, details, any payload bytes, code and message - outside the known class fd-immediate-error-multi,
-   and for each of the four peer pairs, the runner's assertion of the derived expectation against what the client
-   reports records nothing. *)
+   headers, trailers, details, any payload bytes, code and message, Connect GET cases included - outside the known
+   class fd-immediate-error-multi, for every permutation of it (codec proto or json, any compression) and for each of
+   the four peer pairs that runs it (a GET case: the reference pair), the runner's assertion of the expectation derived
+   for that permutation against what the client reports under that permutation records nothing. *)
 Theorem expectation_met :
-  forall tr_req tr_rsp, transport_ok tr_req tr_rsp ->
-  forall tc e, wf tc = true -> fd_immediate_error_multi tc = false -> expected tc = Ok e ->
-  forall sv cl, assert_errs (case_def tc) e (observed tr_req tr_rsp (server_of sv) (client_of cl) tc) = [].
+  forall tr_req tr_query tr_rsp, transport_ok tr_req tr_query tr_rsp ->
+  forall tc codec comp e, wf tc = true -> fd_immediate_error_multi tc = false -> known_codec codec ->
+  expected codec tc = Ok e ->
+  forall sv cl, peers_apply sv cl tc ->
+  assert_errs (case_def tc) e (observed tr_req tr_query tr_rsp (server_of sv) (client_of cl) codec comp tc) = [].
 Proof. exact expectation_met_proof. Qed.
 Print Assumptions expectation_met.
 
@@ -24,24 +29,25 @@ Proof. exact expectation_agrees_proof. Qed.
 Print Assumptions expectation_agrees.
 
 (* a well-formed case always has a derived expectation (the hypothesis of expectation_met is never vacuous) *)
-Theorem expected_defined : forall tc, wf tc = true -> exists e, expected tc = Ok e.
+Theorem expected_defined : forall codec tc, wf tc = true -> exists e, expected codec tc = Ok e.
 Proof. exact expected_defined_proof. Qed.
 Print Assumptions expected_defined.
 
 (* deriving the expectation never crashes, on any shape, well-formed or not *)
-Theorem expected_total : forall tc, expected tc <> Crash.
+Theorem expected_total : forall codec tc, expected codec tc <> Crash.
 Proof. exact expected_total_proof. Qed.
 Print Assumptions expected_total.
 
 (* loading a suite (expandCases' validations + expectations) never crashes: result or error.
    Partial with respect to the property's last sentence: protoyaml parsing, expandRequestData (C19) and the
    config-case expansion (C06/C07) are not part of this model. *)
-Theorem load_total_partial : forall tcs, load tcs <> Crash.
+Theorem load_total_partial : forall codecs tcs, load codecs tcs <> Crash.
 Proof. exact load_total_proof. Qed.
 Print Assumptions load_total_partial.
 
-(* the grpc-go handlers put the same thing on the wire as the connect-go handlers, for every input *)
-Theorem grpc_server_same : forall st hs reqs, grpc_server st hs reqs = ref_server st hs reqs.
+(* the grpc-go handlers put the same thing on the wire as the connect-go handlers do for a request without query
+   string (grpc-go has none), for every input *)
+Theorem grpc_server_same : forall st hs reqs, grpc_server st hs reqs = ref_server st [] hs reqs.
 Proof. exact grpc_server_same_proof. Qed.
 Print Assumptions grpc_server_same.
 
@@ -51,30 +57,30 @@ Definition ex_def (datas : list bytes) (e : option xerr) := mkRD [ex_hdr] [mkH (
 Definition ex_err := mkX 8 (Some (bs "oops")) [(0, bs "abc")].
 (* full duplex, two requests, three responses (more responses than requests), error after them *)
 Definition ex_full := mkT (bs "fd") 5 [mkH (bs "x-q") [bs "1"]]
-  [mkRq 3 true (bs "a") (Some (ex_def [bs "r0"; bs "r1"; bs "r2"] (Some ex_err))); mkRq 3 true (bs "b") None].
+  [mkRq 3 true (bs "a") (Some (ex_def [bs "r0"; bs "r1"; bs "r2"] (Some ex_err))); mkRq 3 true (bs "b") None] false.
 (* the known class: full duplex, two requests, no response, an error *)
-Definition ex_known := mkT (bs "k") 5 [] [mkRq 3 true (bs "a") (Some (ex_def [] (Some ex_err))); mkRq 3 true (bs "b") None].
+Definition ex_known := mkT (bs "k") 5 [] [mkRq 3 true (bs "a") (Some (ex_def [] (Some ex_err))); mkRq 3 true (bs "b") None] false.
 (* unary error with a name that is both header and trailer *)
-Definition ex_unary := mkT (bs "u") 1 [] [mkRq 0 false (bs "a") (Some (mkRD [ex_hdr] [mkH (bs "x-custom") [bs "t"]] [] (Some ex_err)))].
+Definition ex_unary := mkT (bs "u") 1 [] [mkRq 0 false (bs "a") (Some (mkRD [ex_hdr] [mkH (bs "x-custom") [bs "t"]] [] (Some ex_err)))] false.
 
 (* the hypotheses wf / outside-the-class / expected = Ok are inhabited, for a shape the shipped corpus lacks *)
-Example wf_inhabited : wf ex_full = true /\ fd_immediate_error_multi ex_full = false /\ exists e, expected ex_full = Ok e.
+Example wf_inhabited : wf ex_full = true /\ fd_immediate_error_multi ex_full = false /\ exists e, expected 1 ex_full = Ok e.
 Proof. split; [vm_compute; reflexivity|]. split; [vm_compute; reflexivity|]. eexists. vm_compute. reflexivity. Qed.
 
 (* with the identity transport the model's own assert is silent on it, for all four pairs (computation) *)
 Example ex_full_passes :
-  forall sv cl, verdict_errs id_hdrs id_wire (server_of sv) (client_of cl) ex_full = Ok [].
+  forall sv cl, verdict_errs id_hdrs std_query id_wire (server_of sv) (client_of cl) 1 1 ex_full = Ok [].
 Proof. intros [|] [|]; vm_compute; reflexivity. Qed.
 Example ex_unary_passes :
-  forall sv cl, verdict_errs id_hdrs id_wire (server_of sv) (client_of cl) ex_unary = Ok [].
+  forall sv cl, verdict_errs id_hdrs std_query id_wire (server_of sv) (client_of cl) 1 1 ex_unary = Ok [].
 Proof. intros [|] [|]; vm_compute; reflexivity. Qed.
 
 (* the Section hypotheses of expectation_met are satisfiable (the theorem is not vacuous in its transport): the
    identity transport satisfies transport_ok, and so does a transport that behaves like an HTTP stack - names arrive in
    lower case, the values of one field joined into one with ", " (C03's canon_join is what makes the joined form agree) *)
-Example transport_ok_identity : transport_ok id_hdrs id_wire.
+Example transport_ok_identity : transport_ok id_hdrs std_query id_wire.
 Proof. exact transport_id_proof. Qed.
-Example transport_ok_joining : transport_ok join_hdrs join_wire.
+Example transport_ok_joining : transport_ok join_hdrs std_query join_wire.
 Proof. exact transport_join_proof. Qed.
 (* ... and the second one really changes what the peers see *)
 Example joining_changes_headers :
@@ -82,40 +88,95 @@ Example joining_changes_headers :
 Proof. vm_compute. reflexivity. Qed.
 (* hence the verdict theorem applies to both, e.g. on the full-duplex example with the joining transport, all pairs *)
 Example ex_full_passes_joined :
-  forall sv cl, verdict_errs join_hdrs join_wire (server_of sv) (client_of cl) ex_full = Ok [].
+  forall sv cl, verdict_errs join_hdrs std_query join_wire (server_of sv) (client_of cl) 2 2 ex_full = Ok [].
 Proof. intros [|] [|]; vm_compute; reflexivity. Qed.
 Example ex_unary_passes_joined :
-  forall sv cl, verdict_errs join_hdrs join_wire (server_of sv) (client_of cl) ex_unary = Ok [].
+  forall sv cl, verdict_errs join_hdrs std_query join_wire (server_of sv) (client_of cl) 2 2 ex_unary = Ok [].
 Proof. intros [|] [|]; vm_compute; reflexivity. Qed.
 
 (* only the first message's definition (and full_duplex flag) counts: a client stream whose definition sits on the second
    message only is well-formed, its expectation is the bare echo, and all four pairs meet it; the same for a full-duplex
    stream whose later messages carry other definitions and another full_duplex flag *)
-Definition ex_later := mkT (bs "cl") 2 [] [mkRq 1 false (bs "a") None; mkRq 1 false (bs "b") (Some (ex_def [bs "r"] (Some ex_err)))].
+Definition ex_later := mkT (bs "cl") 2 [] [mkRq 1 false (bs "a") None; mkRq 1 false (bs "b") (Some (ex_def [bs "r"] (Some ex_err)))] false.
 Definition ex_several := mkT (bs "fs") 5 []
-  [mkRq 3 true (bs "a") (Some (ex_def [bs "r0"; bs "r1"] None)); mkRq 3 false (bs "b") (Some (ex_def [] (Some ex_err)))].
+  [mkRq 3 true (bs "a") (Some (ex_def [bs "r0"; bs "r1"] None)); mkRq 3 false (bs "b") (Some (ex_def [] (Some ex_err)))] false.
 Example later_definition_ignored :
-  wf ex_later = true /\ expected ex_later = Ok (mkR [] [] [mkP [] (info [] (reqs_any (t_requests ex_later)))] None None 0) /\
-  forall sv cl, verdict_errs id_hdrs id_wire (server_of sv) (client_of cl) ex_later = Ok [].
+  wf ex_later = true /\ expected 1 ex_later = Ok (mkR [] [] [mkP [] (info [] (reqs_any (t_requests ex_later)))] None None 0) /\
+  forall sv cl, verdict_errs id_hdrs std_query id_wire (server_of sv) (client_of cl) 1 1 ex_later = Ok [].
 Proof. split; [vm_compute; reflexivity|]. split; [vm_compute; reflexivity|]. intros [|] [|]; vm_compute; reflexivity. Qed.
 Example several_definitions_first_wins :
-  wf ex_several = true /\ forall sv cl, verdict_errs id_hdrs id_wire (server_of sv) (client_of cl) ex_several = Ok [].
+  wf ex_several = true /\ forall sv cl, verdict_errs id_hdrs std_query id_wire (server_of sv) (client_of cl) 1 1 ex_several = Ok [].
 Proof. split; [vm_compute; reflexivity|]. intros [|] [|]; vm_compute; reflexivity. Qed.
 
 (* the excluded class is not excluded for convenience: there the modelled peers do NOT satisfy the expectation
    (both servers have seen one request when they must fail, the expectation lists two) *)
 Example ex_known_fails :
   wf ex_known = true /\ fd_immediate_error_multi ex_known = true /\
-  forall sv cl, verdict_errs id_hdrs id_wire (server_of sv) (client_of cl) ex_known = Ok [EReqCount].
+  forall sv cl, verdict_errs id_hdrs std_query id_wire (server_of sv) (client_of cl) 1 1 ex_known = Ok [EReqCount].
 Proof. split; [vm_compute; reflexivity|]. split; [vm_compute; reflexivity|]. intros [|] [|]; vm_compute; reflexivity. Qed.
 
 (* the unrepaired generator indexed RequestMessages[idx] without the guard: the shape that crashed it *)
 Example more_responses_than_requests_is_handled :
-  exists e, expected ex_full = Ok e /\ length (r_payloads e) = 3%nat /\ nth_error (r_payloads e) 2 = Some (mkP (bs "r2") empty_ri).
+  exists e, expected 1 ex_full = Ok e /\ length (r_payloads e) = 3%nat /\ nth_error (r_payloads e) 2 = Some (mkP (bs "r2") empty_ri).
 Proof. eexists. split; [vm_compute; reflexivity|]. split; vm_compute; reflexivity. Qed.
 
 (* malformed shapes are rejected with an error, not a crash *)
-Example wrong_message_type_rejected : expected (mkT (bs "x") 4 [] [mkRq 0 false [] None]) = Err.
+Example wrong_message_type_rejected : expected 1 (mkT (bs "x") 4 [] [mkRq 0 false [] None] false) = Err.
 Proof. vm_compute. reflexivity. Qed.
-Example duplicate_names_rejected : load [ex_full; ex_full] = Err.
+Example duplicate_names_rejected : load [1; 2] [ex_full; ex_full] = Err.
+Proof. vm_compute. reflexivity. Qed.
+
+(* ---------- Connect GET cases: the expectation is per permutation ---------- *)
+(* IdempotentUnary with use_get_http_method: data, and an error with a detail *)
+Definition ex_get := mkT (bs "get") 1 [mkH (bs "X-Q") [bs "1"; bs "2"]] [mkRq 0 false (bs "a") (Some (ex_def [bs "r0"] None))] true.
+Definition ex_get_err := mkT (bs "get-err") 1 [] [mkRq 0 false (bs "a") (Some (ex_def [] (Some ex_err)))] true.
+
+(* they are well-formed, and the reference pair is the pair that runs them *)
+Example get_inhabited :
+  wf ex_get = true /\ wf ex_get_err = true /\ peers_apply RefServer RefClient ex_get /\ ~ peers_apply GrpcServer RefClient ex_get.
+Proof.
+  split; [vm_compute; reflexivity|]. split; [vm_compute; reflexivity|]. split.
+  - intros _. split; reflexivity.
+  - intros H. destruct (H eq_refl) as [E _]. discriminate.
+Qed.
+
+(* the expectation names the codec: the two permutations of ONE definition expect different things ... *)
+Example get_expectation_depends_on_codec :
+  expected 1 ex_get <> expected 2 ex_get /\
+  (exists e, expected 1 ex_get = Ok e /\
+             map p_info (r_payloads e) = [infoq (expected_query 1) (t_reqheaders ex_get) [req_any (mkRq 0 false (bs "a") None)]]) /\
+  expected_query 1 = [mkH (bs "encoding") [bs "proto"]; mkH (bs "connect") [bs "v1"]] /\
+  expected_query 2 = [mkH (bs "encoding") [bs "json"]; mkH (bs "connect") [bs "v1"]].
+Proof.
+  split; [vm_compute; discriminate|]. split; [eexists; split; vm_compute; reflexivity|]. split; vm_compute; reflexivity.
+Qed.
+
+(* ... each permutation meets its own expectation (both codecs, identity and gzip, data and error, either transport) ... *)
+Example get_passes_under_both_codecs :
+  forall tc, In tc [ex_get; ex_get_err] -> forall codec, In codec [1; 2] -> forall comp, In comp [1; 2] ->
+  verdict_errs id_hdrs std_query id_wire ref_server ref_client codec comp tc = Ok [] /\
+  verdict_errs join_hdrs std_query join_wire ref_server ref_client codec comp tc = Ok [].
+Proof.
+  intros tc [<-|[<-|[]]] codec [<-|[<-|[]]] comp [<-|[<-|[]]]; split; vm_compute; reflexivity.
+Qed.
+
+(* ... and an expectation shared among the permutations of one definition would not do: the one derived under json,
+   asserted against the run under proto (and the other way round), is a mismatch of the "encoding" param, for a
+   response and for an error alike *)
+Example get_expectation_not_shareable :
+  forall tc, In tc [ex_get; ex_get_err] ->
+  (exists e, expected 2 tc = Ok e /\
+     assert_errs (case_def tc) e (observed id_hdrs std_query id_wire ref_server ref_client 1 1 tc) = [EHdrValues WQuery (bs "encoding")]) /\
+  (exists e, expected 1 tc = Ok e /\
+     assert_errs (case_def tc) e (observed id_hdrs std_query id_wire ref_server ref_client 2 1 tc) = [EHdrValues WQuery (bs "encoding")]).
+Proof.
+  intros tc [<-|[<-|[]]]; split; eexists; split; vm_compute; reflexivity.
+Qed.
+
+(* a case that is not a GET case expects no query param, under either codec *)
+Example non_get_expectation_is_codec_free : expected 1 ex_unary = expected 2 ex_unary /\ expected 1 ex_full = expected 2 ex_full.
+Proof. split; vm_compute; reflexivity. Qed.
+
+(* a GET case whose stream type is not unary is outside the fragment *)
+Example get_needs_unary : wf (mkT (bs "g") 2 [] [mkRq 1 false (bs "a") None] true) = false.
 Proof. vm_compute. reflexivity. Qed.
